@@ -2,16 +2,18 @@
   C11 / LITS, part P — the program posted by `solve_lits` in closed form under `WellFormed` (`program_eq`).
 -/
 import CspuzModel.Proofs.C11LitsA
-import CspuzModel.Proofs.C11LitsG
 import CspuzModel.Proofs.C04L1
 import CspuzModel.Proofs.C04Prim
 import CspuzModel.Proofs.C11FragWT
 namespace Cspuz.Proofs.C11LitsP
 open Cspuz Cspuz.Spec Cspuz.Puzzles Cspuz.Puzzles.Lits Cspuz.Spec.Lits Cspuz.Proofs
-open Cspuz.Proofs.C11LitsA Cspuz.Proofs.C11LitsG
+open Cspuz.Proofs.C11LitsA
 open Cspuz.Proofs.C11Aquarium (Rep tableGet_rep)
 
 /-! ### vocabulary -/
+
+/-- Python's tuple order `(y, x) < (y', x')` (the same function as `C11LitsG.lexLtB`). -/
+def lexLtB (p q : Nat × Nat) : Bool := decide (p.1 < q.1) || (p.1 == q.1 && decide (p.2 < q.2))
 
 /-- The `is_black` array. -/
 def IB (pb : Problem) : PyV :=
@@ -53,8 +55,426 @@ theorem nbCandidates_eq (h w : Nat) (p : Nat × Nat) :
     · simp only [List.map_cons, List.map_nil, castC]; congr 2
     · rfl
 
-theorem mem_nbN {h w : Nat} {p q : Nat × Nat} :
-    q ∈ nbN h w p ↔ cellGraph.Adj p q ∧ (q.1 < h ∧ q.2 < w ∨ False) ∨ False := by
-  sorry
+theorem mem_nbN {h w : Nat} {p q : Nat × Nat} (hp : p.1 < h ∧ p.2 < w) :
+    q ∈ nbN h w p ↔ cellGraph.Adj p q ∧ q.1 < h ∧ q.2 < w := by
+  obtain ⟨p1, p2⟩ := p
+  obtain ⟨q1, q2⟩ := q
+  change p1 < h ∧ p2 < w at hp
+  show _ ↔ ((p1 = q1 ∧ (p2 + 1 = q2 ∨ q2 + 1 = p2)) ∨ (p2 = q2 ∧ (p1 + 1 = q1 ∨ q1 + 1 = p1))) ∧ q1 < h ∧ q2 < w
+  unfold nbN
+  by_cases h1 : 0 < p1 <;> by_cases h2 : p1 + 1 < h <;> by_cases h3 : 0 < p2 <;> by_cases h4 : p2 + 1 < w <;>
+    simp only [h1, h2, h3, h4, if_true, if_false, List.mem_append, List.mem_cons, List.not_mem_nil, or_false,
+      false_or, Prod.mk.injEq, false_iff] <;> omega
+
+theorem nbN_nodup (h w : Nat) (p : Nat × Nat) : (nbN h w p).Nodup := by
+  obtain ⟨p1, p2⟩ := p
+  unfold nbN
+  by_cases h1 : 0 < p1 <;> by_cases h2 : p1 + 1 < h <;> by_cases h3 : 0 < p2 <;> by_cases h4 : p2 + 1 < w <;>
+    simp [h1, h2, h3, h4] <;> omega
+
+/-! ### `cellBody` restated with named pieces -/
+
+/-- One round of the loop over the neighbours. -/
+def innerStep (isBlack : PyV) (bid : List (List Int)) (i y x : Int) (acc : List (Int × Int) × List Expr)
+    (q : Int × Int) : Py (List (Int × Int) × List Expr) := do
+  let b ← tableGet bid q.1 q.2
+  if b == i then do
+    let pairs ← if tupleLt (y, x) q then do
+        let a ← getitemV isBlack (.pair (.idx y) (.idx x))
+        let c ← getitemV isBlack (.pair (.idx q.1) (.idx q.2))
+        let e ← binop .and_ a c
+        .ok (acc.2 ++ e.flat)
+      else .ok acc.2
+    .ok (acc.1 ++ [q], pairs)
+  else .ok acc
+
+/-- The part of `cellBody` after the loop over the neighbours. -/
+def cellRest (pb : Problem) (isBlack : PyV) (bid : List (List Int)) (i : Int) (yx : Int × Int)
+    (same : List (Int × Int)) (pairs : List Expr) : Py CellOut := do
+  let y := yx.1
+  let x := yx.2
+  let h : Int := pb.height
+  let w : Int := pb.width
+  let c ← getitemV isBlack (.pair (.idx y) (.idx x))
+  let sel ← getitemV isBlack (.coords same)
+  let fo ← foldOrA [.leaf sel]
+  let r ← callM .then_ c [.scalar fo]
+  let c1 ← ensureV r
+  let vert ← if 0 < y ∧ y < h - 1 then do
+      let u ← tableGet bid (y - 1) x
+      let d ← tableGet bid (y + 1) x
+      .ok (u == i && d == i)
+    else .ok false
+  let t1 ← if vert then do
+      let s ← getitemV isBlack (.pair (sl (some (y - 1)) (some (y + 2))) (.idx x))
+      let e ← foldAndA [.leaf s]
+      .ok [ANest.leaf (.scalar e)]
+    else .ok []
+  let horiz ← if 0 < x ∧ x < w - 1 then do
+      let l ← tableGet bid y (x - 1)
+      let r ← tableGet bid y (x + 1)
+      .ok (l == i && r == i)
+    else .ok false
+  let t2 ← if horiz then do
+      let s ← getitemV isBlack (.pair (.idx y) (sl (some (x - 1)) (some (x + 2))))
+      let e ← foldAndA [.leaf s]
+      .ok [ANest.leaf (.scalar e)]
+    else .ok []
+  let tmp := t1 ++ t2
+  let straight ← if tmp.length ≥ 1 then do
+      let e ← foldOrA [.items tmp]
+      .ok [e]
+    else .ok []
+  let ts ← if same.length ≥ 3 then do
+      let ct ← countTrueA [.items [.leaf sel]]
+      let e ← binop .ge (.scalar ct) (.scalar (.litI 3))
+      .ok e.flat
+    else .ok []
+  .ok { cs := c1, pairs := pairs, straight := straight, ts := ts }
+
+theorem cellBody_eq (pb : Problem) (isBlack : PyV) (bid : List (List Int)) (i : Int) (yx : Int × Int) :
+    cellBody pb isBlack bid i yx = (do
+      let nbs ← fourNeighborIndices pb.height pb.width (.two yx.1 yx.2)
+      let sp ← nbs.foldlM (innerStep isBlack bid i yx.1 yx.2) (([] : List (Int × Int)), ([] : List Expr))
+      cellRest pb isBlack bid i yx sp.1 sp.2) := rfl
+
+/-! ### small closed forms -/
+
+theorem natCast_beq (a b : Nat) : (((a : Nat) : Int) == ((b : Nat) : Int)) = (a == b) := by
+  by_cases h : a = b
+  · subst h; simp
+  · have : ¬ ((a : Int) = (b : Int)) := by omega
+    simp [h, this]
+
+theorem tupleLt_cast (p q : Nat × Nat) : tupleLt ((p.1 : Int), (p.2 : Int)) (castC q) = lexLtB p q := by
+  simp only [tupleLt, lexLtB, castC, natCast_beq, Int.ofNat_lt]
+
+/-- `fold_or` on `BoolExpr`s. -/
+def orE (l : List Expr) : Expr := if l.isEmpty then .node .boolConst [.litB false] else .node .or l
+
+theorem foldOr_go_boolExprs : ∀ (l acc : List Expr), (∀ x ∈ l, x.isBoolExpr = true) →
+    foldOr.go l acc = .ok (orE (acc.reverse ++ l))
+  | [], acc, _ => by
+    unfold foldOr.go orE
+    simp only [List.append_nil, List.isEmpty_reverse]
+    split <;> rfl
+  | x :: r, acc, h => by
+    have hbe := h x (by simp)
+    have hgo : foldOr.go (x :: r) acc = foldOr.go r (x :: acc) := by
+      cases x <;> simp [Expr.isBoolExpr] at hbe <;> simp [foldOr.go, Expr.isBoolExpr, hbe]
+    rw [hgo, foldOr_go_boolExprs r (x :: acc) (fun y hy => h y (by simp [hy]))]
+    simp
+
+theorem foldOr_boolExprs (l : List Expr) (h : ∀ x ∈ l, x.isBoolExpr = true) : foldOr l = .ok (orE l) := by
+  unfold foldOr
+  rw [foldOr_go_boolExprs l [] h]
+  simp
+
+theorem orE_isNode (l : List Expr) : ∃ op args, orE l = .node op args ∧ op.isBoolOp = true := by
+  unfold orE
+  split
+  · exact ⟨_, _, rfl, rfl⟩
+  · exact ⟨_, _, rfl, rfl⟩
+
+theorem cv_isBoolExpr (w : Nat) (l : List (Nat × Nat)) : ∀ x ∈ l.map (cv w), x.isBoolExpr = true := by
+  intro x hx
+  simp only [List.mem_map] at hx
+  obtain ⟨_, _, rfl⟩ := hx; rfl
+
+theorem cv_isBoolLike (w : Nat) (l : List (Nat × Nat)) : ∀ x ∈ l.map (cv w), x.isBoolLike = true := by
+  intro x hx
+  simp only [List.mem_map] at hx
+  obtain ⟨_, _, rfl⟩ := hx; rfl
+
+theorem flattenList_leaves (l : List Expr) :
+    ANest.flattenList (l.map fun e => ANest.leaf (.scalar e)) = l := by
+  induction l with
+  | nil => rfl
+  | cons a l ih => simp [ANest.flattenList, ANest.flatten, PyV.flat, ih]
+
+theorem binop_ge_node_lit (op : Op) (l : List Expr) (v : Int) (hop : op.isIntOp = true) :
+    binop .ge (.scalar (.node op l)) (.scalar (.litI v)) = .ok (.scalar (.node .ge [.node op l, .litI v])) := by
+  cases op <;> first | rfl | simp [Op.isIntOp] at hop
+
+theorem binop_eq_ivar_node (i : Nat) (op : Op) (l : List Expr) (hop : op.isIntOp = true) :
+    binop .eq (.scalar (.ivar i)) (.scalar (.node op l)) = .ok (.scalar (.node .eq [.ivar i, .node op l])) := by
+  cases op <;> first | rfl | simp [Op.isIntOp] at hop
+
+theorem binop_eq_bvar_node (i : Nat) (op : Op) (l : List Expr) (hop : op.isBoolOp = true) :
+    binop .eq (.scalar (.bvar i)) (.scalar (.node op l)) = .ok (.scalar (.node .iff [.bvar i, .node op l])) := by
+  cases op <;> first | rfl | simp [Op.isBoolOp] at hop
+
+theorem callM_then_node (op1 : Op) (l1 : List Expr) (op : Op) (l : List Expr) (h1 : op1 = .and)
+    (hop : op.isBoolOp = true) :
+    callM .then_ (.scalar (.node op1 l1)) [.scalar (.node op l)]
+      = .ok (.scalar (.node .imp [.node op1 l1, .node op l])) := by
+  subst h1
+  cases op <;> first | rfl | simp [Op.isBoolOp] at hop
+
+/-! ### the body of the loop over the cells of a region, in closed form -/
+
+/-- The neighbours of `p` in region `i`. -/
+def sameN (pb : Problem) (i : Nat) (p : Nat × Nat) : List (Nat × Nat) :=
+  (nbN pb.height pb.width p).filter fun q => regionIdx pb q == i
+
+/-- `p` has a neighbour above and below, both in region `i`. -/
+def vertOK (pb : Problem) (i : Nat) (p : Nat × Nat) : Bool :=
+  decide (0 < p.1 ∧ p.1 + 1 < pb.height) && (regionIdx pb (p.1 - 1, p.2) == i && regionIdx pb (p.1 + 1, p.2) == i)
+
+/-- `p` has a neighbour to the left and to the right, both in region `i`. -/
+def horizOK (pb : Problem) (i : Nat) (p : Nat × Nat) : Bool :=
+  decide (0 < p.2 ∧ p.2 + 1 < pb.width) && (regionIdx pb (p.1, p.2 - 1) == i && regionIdx pb (p.1, p.2 + 1) == i)
+
+def vE (w : Nat) (p : Nat × Nat) : Expr := .node .and [cv w (p.1 - 1, p.2), cv w p, cv w (p.1 + 1, p.2)]
+def hE (w : Nat) (p : Nat × Nat) : Expr := .node .and [cv w (p.1, p.2 - 1), cv w p, cv w (p.1, p.2 + 1)]
+
+/-- The list `tmp`. -/
+def tmpE (pb : Problem) (i : Nat) (p : Nat × Nat) : List Expr :=
+  (if vertOK pb i p then [vE pb.width p] else []) ++ (if horizOK pb i p then [hE pb.width p] else [])
+
+/-- `is_black[y, x].then(fold_or(is_black[neighbor_same_block]))`. -/
+def nbrE (pb : Problem) (i : Nat) (p : Nat × Nat) : Expr :=
+  .node .imp [cv pb.width p, orE ((sameN pb i p).map (cv pb.width))]
+
+/-- The contributions of `p` to `adjacent_pairs`. -/
+def pairsE (pb : Problem) (i : Nat) (p : Nat × Nat) : List Expr :=
+  ((sameN pb i p).filter (lexLtB p)).map fun q => .node .and [cv pb.width p, cv pb.width q]
+
+/-- The contribution of `p` to `is_straight`. -/
+def straightE (pb : Problem) (i : Nat) (p : Nat × Nat) : List Expr :=
+  if (tmpE pb i p).isEmpty then [] else [.node .or (tmpE pb i p)]
+
+/-- The contribution of `p` to `is_t`. -/
+def tsE (pb : Problem) (i : Nat) (p : Nat × Nat) : List Expr :=
+  if 3 ≤ (sameN pb i p).length then [.node .ge [countTrueE ((sameN pb i p).map (cv pb.width)), .litI 3]] else []
+
+def cellOutN (pb : Problem) (i : Nat) (p : Nat × Nat) : CellOut :=
+  { cs := [nbrE pb i p], pairs := pairsE pb i p, straight := straightE pb i p, ts := tsE pb i p }
+
+section
+variable {pb : Problem}
+
+theorem getCellV {p : Nat × Nat} (hp : OnB pb p) :
+    getitemV (IB pb) (.pair (.idx (p.1 : Int)) (.idx (p.2 : Int))) = .ok (.scalar (cv pb.width p)) :=
+  C11CL.getitemV_cell true Expr.bvar _ _ _ _ hp.1 hp.2
+
+theorem getCoordsV {l : List (Nat × Nat)} (hl : ∀ q ∈ l, OnB pb q) :
+    getitemV (IB pb) (.coords (l.map castC)) = .ok (.arr1 true (l.map (cv pb.width))) := by
+  unfold IB
+  rw [C11CL.getitemV_coords true Expr.bvar pb.height pb.width (l.map castC) (by
+    intro c hc
+    simp only [List.mem_map] at hc
+    obtain ⟨q, hq, rfl⟩ := hc
+    have := hl q hq
+    simp only [castC, OnB] at this ⊢
+    omega)]
+  simp [List.map_map, Function.comp_def, castC, cv]
+
+theorem nbN_onB {p q : Nat × Nat} (hp : OnB pb p) (hq : q ∈ nbN pb.height pb.width p) : OnB pb q :=
+  ((mem_nbN hp).1 hq).2
+
+theorem sameN_onB {i : Nat} {p q : Nat × Nat} (hp : OnB pb p) (hq : q ∈ sameN pb i p) : OnB pb q :=
+  nbN_onB hp (List.mem_filter.1 hq).1
+
+theorem tableGet_region {bid : List (List Int)}
+    (hbid : Rep pb.height pb.width bid (fun y x => ((regionIdx pb (y, x) : Nat) : Int))) {q : Nat × Nat}
+    (hq : OnB pb q) : tableGet bid (q.1 : Int) (q.2 : Int) = .ok ((regionIdx pb q : Nat) : Int) :=
+  tableGet_rep hbid hq.1 hq.2
+
+theorem inner_fold {bid : List (List Int)}
+    (hbid : Rep pb.height pb.width bid (fun y x => ((regionIdx pb (y, x) : Nat) : Int))) (i : Nat)
+    {p : Nat × Nat} (hp : OnB pb p) :
+    ∀ (l : List (Nat × Nat)) (acc : List (Int × Int) × List Expr), (∀ q ∈ l, OnB pb q) →
+      (l.map castC).foldlM (innerStep (IB pb) bid (i : Int) (p.1 : Int) (p.2 : Int)) acc
+        = .ok (acc.1 ++ (l.filter fun q => regionIdx pb q == i).map castC,
+               acc.2 ++ ((l.filter fun q => regionIdx pb q == i).filter (lexLtB p)).map
+                 fun q => Expr.node .and [cv pb.width p, cv pb.width q])
+  | [], acc, _ => by simp [pure, Except.pure]
+  | q :: r, acc, hl => by
+    have hq := hl q (by simp)
+    have hr : ∀ q' ∈ r, OnB pb q' := fun q' h' => hl q' (by simp [h'])
+    rw [List.map_cons, List.foldlM_cons]
+    have hstep : innerStep (IB pb) bid (i : Int) (p.1 : Int) (p.2 : Int) acc (castC q)
+        = .ok (if regionIdx pb q == i then
+            (acc.1 ++ [castC q],
+              if lexLtB p q then acc.2 ++ [Expr.node .and [cv pb.width p, cv pb.width q]] else acc.2)
+          else acc) := by
+      unfold innerStep
+      simp only [castC]
+      rw [tableGet_region hbid hq, ok_bind, natCast_beq]
+      by_cases hri : (regionIdx pb q == i) = true
+      · rw [if_pos hri, if_pos hri]
+        have := tupleLt_cast p q
+        simp only [castC] at this
+        simp only [this]
+        by_cases hlt : lexLtB p q = true
+        · rw [if_pos hlt, if_pos hlt, getCellV hp, ok_bind, getCellV hq, ok_bind]
+          rfl
+        · rw [if_neg hlt, if_neg hlt]; rfl
+      · rw [if_neg hri, if_neg hri]
+    rw [hstep, ok_bind, inner_fold hbid i hp r _ hr]
+    by_cases hri : (regionIdx pb q == i) = true
+    · simp only [hri, if_true, List.filter_cons_of_pos, List.map_cons]
+      by_cases hlt : lexLtB p q = true
+      · simp [hlt]
+      · simp [hlt]
+    · simp only [hri, if_false, Bool.false_eq_true]
+      rw [List.filter_cons_of_neg (by simpa using hri)]
+
+theorem foldOrA_arr1 (l : List Expr) : foldOrA [.leaf (.arr1 true l)] = foldOr l := by
+  simp [foldOrA, ANest.flattenList, ANest.flatten, PyV.flat]
+
+theorem foldAndA_arr1 (l : List Expr) : foldAndA [.leaf (.arr1 true l)] = foldAnd l := by
+  simp [foldAndA, ANest.flattenList, ANest.flatten, PyV.flat]
+
+theorem countTrueA_items_arr1 (l : List Expr) : countTrueA [.items [.leaf (.arr1 true l)]] = countTrue l := by
+  simp [countTrueA, ANest.flattenList, ANest.flatten, PyV.flat]
+
+theorem vert_closed {bid : List (List Int)}
+    (hbid : Rep pb.height pb.width bid (fun y x => ((regionIdx pb (y, x) : Nat) : Int))) (i : Nat)
+    {p : Nat × Nat} (hp : OnB pb p) :
+    (if 0 < (p.1 : Int) ∧ (p.1 : Int) < (pb.height : Int) - 1 then do
+        let u ← tableGet bid ((p.1 : Int) - 1) (p.2 : Int)
+        let d ← tableGet bid ((p.1 : Int) + 1) (p.2 : Int)
+        (.ok (u == (i : Int) && d == (i : Int)) : Py Bool)
+      else .ok false) = .ok (vertOK pb i p) := by
+  unfold vertOK
+  by_cases hv : 0 < p.1 ∧ p.1 + 1 < pb.height
+  · rw [if_pos (by omega)]
+    have e1 : ((p.1 : Int) - 1) = ((p.1 - 1 : Nat) : Int) := by omega
+    have e2 : ((p.1 : Int) + 1) = ((p.1 + 1 : Nat) : Int) := by omega
+    have h1 := tableGet_region hbid (q := (p.1 - 1, p.2)) ⟨by simp only; omega, hp.2⟩
+    have h2 := tableGet_region hbid (q := (p.1 + 1, p.2)) ⟨by simp only; omega, hp.2⟩
+    simp only at h1 h2
+    rw [e1, e2, h1, ok_bind, h2, ok_bind, natCast_beq, natCast_beq]
+    simp [hv]
+  · rw [if_neg (by omega)]
+    simp [hv]
+
+theorem horiz_closed {bid : List (List Int)}
+    (hbid : Rep pb.height pb.width bid (fun y x => ((regionIdx pb (y, x) : Nat) : Int))) (i : Nat)
+    {p : Nat × Nat} (hp : OnB pb p) :
+    (if 0 < (p.2 : Int) ∧ (p.2 : Int) < (pb.width : Int) - 1 then do
+        let l ← tableGet bid (p.1 : Int) ((p.2 : Int) - 1)
+        let r ← tableGet bid (p.1 : Int) ((p.2 : Int) + 1)
+        (.ok (l == (i : Int) && r == (i : Int)) : Py Bool)
+      else .ok false) = .ok (horizOK pb i p) := by
+  unfold horizOK
+  by_cases hv : 0 < p.2 ∧ p.2 + 1 < pb.width
+  · rw [if_pos (by omega)]
+    have e1 : ((p.2 : Int) - 1) = ((p.2 - 1 : Nat) : Int) := by omega
+    have e2 : ((p.2 : Int) + 1) = ((p.2 + 1 : Nat) : Int) := by omega
+    have h1 := tableGet_region hbid (q := (p.1, p.2 - 1)) ⟨hp.1, by simp only; omega⟩
+    have h2 := tableGet_region hbid (q := (p.1, p.2 + 1)) ⟨hp.1, by simp only; omega⟩
+    simp only at h1 h2
+    rw [e1, e2, h1, ok_bind, h2, ok_bind, natCast_beq, natCast_beq]
+    simp [hv]
+  · rw [if_neg (by omega)]
+    simp [hv]
+
+theorem vslice_closed {p : Nat × Nat} (hp : OnB pb p) (hv : 0 < p.1 ∧ p.1 + 1 < pb.height) :
+    getitemV (IB pb) (.pair (sl (some ((p.1 : Int) - 1)) (some ((p.1 : Int) + 2))) (.idx (p.2 : Int)))
+      = .ok (.arr1 true [cv pb.width (p.1 - 1, p.2), cv pb.width p, cv pb.width (p.1 + 1, p.2)]) := by
+  unfold IB sl
+  rw [C11CL.getitemV_col true Expr.bvar pb.height pb.width _ p.2 _ hp.2
+    (C11CL.axisSel_range' pb.height _ _ (p.1 - 1) (p.1 + 2) (by omega) (by omega) (by omega) (by omega))
+    (by intro y hy; simp only [List.mem_map, List.mem_range] at hy; obtain ⟨j, hj, rfl⟩ := hy; omega)]
+  have : p.1 + 2 - (p.1 - 1) = 3 := by omega
+  rw [this]
+  have e : p.1 - 1 + 1 = p.1 := by omega
+  have e' : p.1 - 1 + 2 = p.1 + 1 := by omega
+  simp [List.range_succ, cv, e, e']
+
+theorem hslice_closed {p : Nat × Nat} (hp : OnB pb p) (hv : 0 < p.2 ∧ p.2 + 1 < pb.width) :
+    getitemV (IB pb) (.pair (.idx (p.1 : Int)) (sl (some ((p.2 : Int) - 1)) (some ((p.2 : Int) + 2))))
+      = .ok (.arr1 true [cv pb.width (p.1, p.2 - 1), cv pb.width p, cv pb.width (p.1, p.2 + 1)]) := by
+  unfold IB sl
+  rw [C11CL.getitemV_row true Expr.bvar pb.height pb.width p.1 _ _ hp.1
+    (C11CL.axisSel_range' pb.width _ _ (p.2 - 1) (p.2 + 2) (by omega) (by omega) (by omega) (by omega))
+    (by intro y hy; simp only [List.mem_map, List.mem_range] at hy; obtain ⟨j, hj, rfl⟩ := hy; omega)]
+  have : p.2 + 2 - (p.2 - 1) = 3 := by omega
+  rw [this]
+  have e : p.2 - 1 + 1 = p.2 := by omega
+  have e' : p.2 - 1 + 2 = p.2 + 1 := by omega
+  simp [List.range_succ, cv, e, e']
+
+theorem t1_closed (i : Nat) {p : Nat × Nat} (hp : OnB pb p) :
+    (if vertOK pb i p then do
+        let s ← getitemV (IB pb) (.pair (sl (some ((p.1 : Int) - 1)) (some ((p.1 : Int) + 2))) (.idx (p.2 : Int)))
+        let e ← foldAndA [.leaf s]
+        (.ok [ANest.leaf (.scalar e)] : Py (List ANest))
+      else .ok []) = .ok (if vertOK pb i p then [ANest.leaf (.scalar (vE pb.width p))] else []) := by
+  by_cases hv : vertOK pb i p = true
+  · rw [if_pos hv, if_pos hv]
+    have hv' : 0 < p.1 ∧ p.1 + 1 < pb.height := by
+      simp only [vertOK, Bool.and_eq_true, decide_eq_true_eq] at hv
+      exact hv.1
+    rw [vslice_closed hp hv', ok_bind, foldAndA_arr1]
+    rfl
+  · rw [if_neg hv, if_neg hv]
+
+theorem t2_closed (i : Nat) {p : Nat × Nat} (hp : OnB pb p) :
+    (if horizOK pb i p then do
+        let s ← getitemV (IB pb) (.pair (.idx (p.1 : Int)) (sl (some ((p.2 : Int) - 1)) (some ((p.2 : Int) + 2))))
+        let e ← foldAndA [.leaf s]
+        (.ok [ANest.leaf (.scalar e)] : Py (List ANest))
+      else .ok []) = .ok (if horizOK pb i p then [ANest.leaf (.scalar (hE pb.width p))] else []) := by
+  by_cases hv : horizOK pb i p = true
+  · rw [if_pos hv, if_pos hv]
+    have hv' : 0 < p.2 ∧ p.2 + 1 < pb.width := by
+      simp only [horizOK, Bool.and_eq_true, decide_eq_true_eq] at hv
+      exact hv.1
+    rw [hslice_closed hp hv', ok_bind, foldAndA_arr1]
+    rfl
+  · rw [if_neg hv, if_neg hv]
+
+theorem straight_closed (i : Nat) (p : Nat × Nat) :
+    (if ((if vertOK pb i p then [ANest.leaf (.scalar (vE pb.width p))] else []) ++
+          (if horizOK pb i p then [ANest.leaf (.scalar (hE pb.width p))] else [])).length ≥ 1 then do
+        let e ← foldOrA [.items ((if vertOK pb i p then [ANest.leaf (.scalar (vE pb.width p))] else []) ++
+          (if horizOK pb i p then [ANest.leaf (.scalar (hE pb.width p))] else []))]
+        (.ok [e] : Py (List Expr))
+      else .ok []) = .ok (straightE pb i p) := by
+  unfold straightE tmpE
+  cases vertOK pb i p <;> cases horizOK pb i p <;> rfl
+
+theorem cellRest_closed {bid : List (List Int)}
+    (hbid : Rep pb.height pb.width bid (fun y x => ((regionIdx pb (y, x) : Nat) : Int))) (i : Nat)
+    {p : Nat × Nat} (hp : OnB pb p) (pairs : List Expr) :
+    cellRest pb (IB pb) bid (i : Int) (castC p) ((sameN pb i p).map castC) pairs
+      = .ok { cs := [nbrE pb i p], pairs := pairs, straight := straightE pb i p, ts := tsE pb i p } := by
+  unfold cellRest
+  simp only [castC]
+  rw [getCellV hp, ok_bind, getCoordsV (fun q hq => sameN_onB hp hq), ok_bind, foldOrA_arr1,
+    foldOr_boolExprs _ (cv_isBoolExpr _ _), ok_bind]
+  obtain ⟨op, args, hE, hop⟩ := orE_isNode ((sameN pb i p).map (cv pb.width))
+  have hthen : callM .then_ (.scalar (cv pb.width p)) [.scalar (orE ((sameN pb i p).map (cv pb.width)))]
+      = .ok (.scalar (nbrE pb i p)) := by
+    unfold nbrE
+    rw [hE]
+    exact C11CL.callM_then_bvar _ _ _ hop
+  rw [hthen, ok_bind, C11CL.ensureV_scalar _ rfl, ok_bind, vert_closed hbid i hp, ok_bind, t1_closed i hp, ok_bind,
+    horiz_closed hbid i hp, ok_bind, t2_closed i hp, ok_bind, straight_closed i p, ok_bind]
+  simp only [List.length_map]
+  unfold tsE
+  by_cases h3 : 3 ≤ (sameN pb i p).length
+  · rw [if_pos h3, if_pos h3, countTrueA_items_arr1, countTrue_ok_of_boolLike (cv_isBoolLike _ _), ok_bind]
+    obtain ⟨op', args', hE', hop'⟩ := C11CL.countTrueE_isNode ((sameN pb i p).map (cv pb.width))
+    rw [hE', binop_ge_node_lit _ _ _ hop']
+    rfl
+  · rw [if_neg h3, if_neg h3]
+    rfl
+
+theorem cellBody_closed {bid : List (List Int)}
+    (hbid : Rep pb.height pb.width bid (fun y x => ((regionIdx pb (y, x) : Nat) : Int))) (i : Nat)
+    {p : Nat × Nat} (hp : OnB pb p) :
+    cellBody pb (IB pb) bid (i : Int) (castC p) = .ok (cellOutN pb i p) := by
+  rw [cellBody_eq]
+  simp only [fourNeighborIndices, NbArgs.cell, castC, ok_bind]
+  rw [nbCandidates_eq, inner_fold hbid i hp _ _ (fun q hq => nbN_onB hp hq), ok_bind]
+  simp only [List.nil_append]
+  exact cellRest_closed hbid i hp _
+
+end
 
 end Cspuz.Proofs.C11LitsP
